@@ -21,6 +21,8 @@ TABLE = [
     ("C03", r"rk4_R", r"span\.|support", ["rk4_overshoot"]),
     ("C03", r".*_R", r"span\.|hinit|support", ["span_hinit_probe", "rk4_overshoot"]),
     ("C11", r".*_R", r"step\.|hinit", ["step_bounds"]),
+    ("C07", r"bdf", r".*", ["bdf_interpolant_history", "dense_midstep_order"]),
+    ("C06", r"bdf", r"newton|back_value|factor", ["bdf_interpolant_history"]),
     ("C07", r".*", r".*", ["dense_midstep_order"]),
     ("C06", r"rk4|coef_dense", r"dense", ["dense_midstep_order"]),
     ("C06", r"radau|bdf", r"dense\.|interp|hist\.", ["dense_end_points", "radau_interpolant_interval"]),
